@@ -7,6 +7,7 @@ import (
 	"strings"
 
 	"github.com/fiorix/go-diameter/v4/diam"
+	"github.com/fiorix/go-diameter/v4/diam/datatype"
 	"github.com/fiorix/go-diameter/v4/diam/dict"
 	"verif/internal/atoms"
 	"verif/internal/ev"
@@ -20,6 +21,26 @@ func init() {
 }
 
 // c01Eval runs both directions for one case and returns "" or a description.
+// c01Spy wraps the value of an AVP; the first time it is asked for its bytes it runs f (a second
+// serialisation of the same message, standing for another goroutine at that point).
+type c01Spy struct {
+	inner datatype.Type
+	f     func()
+	fired bool
+}
+
+func (s *c01Spy) Serialize() []byte {
+	if !s.fired {
+		s.fired = true
+		s.f()
+	}
+	return s.inner.Serialize()
+}
+func (s *c01Spy) Len() int              { return s.inner.Len() }
+func (s *c01Spy) Padding() int          { return s.inner.Padding() }
+func (s *c01Spy) Type() datatype.TypeID { return s.inner.Type() }
+func (s *c01Spy) String() string        { return s.inner.String() }
+
 func c01Eval(c *Config, t TreeCase) string {
 	return safely(func() string {
 		// direction 1: API -> wire -> API -> wire
@@ -40,6 +61,30 @@ func c01Eval(c *Config, t TreeCase) string {
 			}
 			if _, err := diam.ReadMessage(bytes.NewReader(bt), c.A.D.P); err != nil {
 				return "api: a message assembled top-down cannot be read back: " + err.Error()
+			}
+		}
+		// the same message serialised by TWO callers at once (one notification fanned out to several
+		// peers, a retransmission racing the first send): serialising only reads the message, so a
+		// second serialisation that runs while the first is in the middle of its walk - here: inside
+		// the Serialize() of the first AVP's value - changes nothing for either
+		if len(m.AVP) > 0 {
+			var nested []byte
+			var nerr error
+			inner := m.AVP[0].Data
+			spy := &c01Spy{inner: inner}
+			spy.f = func() { nested, nerr = m.Serialize() }
+			m.AVP[0].Data = spy
+			outer, oerr := m.Serialize()
+			m.AVP[0].Data = inner
+			switch {
+			case !spy.fired:
+				// the value was not asked for its bytes: nothing overlapped
+			case oerr != nil || nerr != nil:
+				return fmt.Sprintf("api: two overlapping serialisations of one message failed: %v / %v", oerr, nerr)
+			case !bytes.Equal(outer, b1) || !bytes.Equal(nested, b1):
+				return fmt.Sprintf("api: two overlapping serialisations of one message: the outer one differs from the message's wire image at byte %d, the one nested inside it at byte %d", firstDiff(outer, b1), firstDiff(nested, b1))
+			case int(m.Header.MessageLength) != len(b1):
+				return fmt.Sprintf("api: after two overlapping serialisations the message's Header.MessageLength is %d, its wire image has %d bytes", m.Header.MessageLength, len(b1))
 			}
 		}
 		m2, err := diam.ReadMessage(bytes.NewReader(b1), c.A.D.P)
@@ -250,6 +295,7 @@ func runC01(ctx *ev.Ctx) {
 			}
 		}
 	}
+	ctx.Rule += " Every assembled message is also serialised by two callers at once: a second Serialize of the same message runs inside the Serialize() of its first AVP's value; both results and Header.MessageLength must be the message's wire image."
 	ctx.Rule += " Four trees per configuration carry AVPs longer than 64 KiB (a leaf of 65527 / 65528 / 70001 bytes, a group of 70 members of about 1 KB)."
 	ctx.Rule += " One configuration is also exercised with a dictionary that grows after first use: the parser decodes every AVP of the alphabet while it is still undefined, the defining dictionary is loaded, then the round trips run on that parser."
 	ctx.Rule += " Every case is written with WriteTo into a destination that, before it consumes the bytes, lets another message pass through WriteTo on another writer; and every wire image is read a second time overlapping with a complete read from another source (nested inside the reader's third Read call, i.e. after the header and half of the body), after a message too large for the pooled read buffer has been read."
